@@ -80,6 +80,15 @@ def model_check(chk, tier):
         with _LOCK:
             chk.add_tlc(res)
         info.append({"cfg": cfg, "states": res.distinct, "transitions": res.generated, "wall_s": round(res.wall, 1)})
+    res = core.run_tlc("Vdso_MC.tla", "Vdso_aligned.cfg", workers=4, timeout=3000, xmx="4g")
+    core.tlc_must_pass(res, "Vdso_aligned")
+    with _LOCK:
+        chk.add_tlc(res)
+    info.append({"cfg": "Vdso_aligned.cfg", "states": res.distinct, "wall_s": round(res.wall, 1)})
+    if tier != "quick":
+        res = core.run_tlc("Vdso_MC.tla", "Vdso_any.cfg", workers=4, timeout=3000, xmx="4g")
+        info.append({"cfg": "Vdso_any.cfg", "lead_decided_by_model": "a symbol value that is not a multiple of its section's alignment is "
+                     "resolved to the value rounded up", "counterexample_found": "ResolutionAdmissible" in res.invariant_violated})
     if tier != "quick":
         res = core.run_tlc("Reloc_MC.tla", "Reloc_dynfirst.cfg", workers=4, timeout=3000, xmx="4g")
         info.append({"cfg": "Reloc_dynfirst.cfg", "lead_decided_by_model": "PT_DYNAMIC as FIRST program header is never seen by the walk "
@@ -586,11 +595,7 @@ def reloc_image(chk, bins):
                 # the probe did not get through start-up: that is clause status' business (it runs the same binary)
                 meta.append({"mode": mode, "build": build, "skipped": "probe did not reach its marker line"})
                 continue
-            base = None
-            for l in open("/proc/%d/maps" % p.pid):
-                if binary in l:
-                    base = int(l.split("-")[0], 16) - int(l.split()[2], 16)
-                    break
+            base = load_base(p.pid, binary, elf)
             if base is None:
                 raise core.ToolError("cannot find the load base of %s" % binary)
             after = []
@@ -701,6 +706,131 @@ def reloc_image(chk, bins):
         info["transcription_on_real_tables"] = {"error": str(e)[:300]}
 
 
+def load_base(pid, binary, elf):
+    """run-time address of link-time address 0 of the main executable (0 for a non-PIE static link)"""
+    first = min((p for p in elf.phdrs if p["type"] == 1), key=lambda p: p["vaddr"])
+    for l in open("/proc/%d/maps" % pid):
+        if binary in l:
+            lo = int(l.split("-")[0], 16)
+            off = int(l.split()[2], 16)
+            return lo - off - (first["vaddr"] - first["offset"])
+    return None
+
+
+def vdso_lookup(chk, bins):
+    """Clause vdso: dump the REAL vDSO of each running aux-enabled probe, extract section headers / .dynstr / .dynsym
+    with checks/elfparse.py, read the pointer tiny-std stored in its static VDSO_CLOCK_GET_TIME from the probe's
+    memory, and let TLC (VdsoJudge.tla) decide: pointer admissible by the symbol table (verdict), transcribed walk
+    on the real image = pointer (conformance), can the rounding of vdso.rs bite on this image (lead decided)."""
+    from checks import elfparse
+    target = list(b"__vdso_clock_gettime")
+    recs, meta = [], []
+    for (mode, build), binary in sorted(bins.items()):
+        if mode == "dyn-noaux":
+            continue
+        elf = elfparse.Elf(open(binary, "rb").read())
+        sym = next((s for s in elf.symbols(".symtab") if b"VDSO_CLOCK_GET_TIME" in s[0]), None)
+        if sym is None:
+            meta.append({"mode": mode, "build": build, "skipped": "no symbol VDSO_CLOCK_GET_TIME in the probe (stripped?)"})
+            continue
+        p = subprocess.Popen([binary, "vdso"], stdin=subprocess.PIPE, stdout=subprocess.PIPE, stderr=subprocess.PIPE, env={})
+        try:
+            seen = b""
+            while b"clock real" not in seen:
+                ch = p.stdout.readline()
+                if not ch:
+                    break
+                seen += ch
+            if b"clock real" not in seen:
+                meta.append({"mode": mode, "build": build, "skipped": "probe did not reach its marker line"})
+                continue
+            aux = open("/proc/%d/auxv" % p.pid, "rb").read()
+            pairs = [(int.from_bytes(aux[i:i + 8], "little"), int.from_bytes(aux[i + 8:i + 16], "little")) for i in range(0, len(aux) - 15, 16)]
+            ehdr = dict(pairs).get(33, 0)
+            base = load_base(p.pid, binary, elf)
+            size = 0
+            for l in open("/proc/%d/maps" % p.pid):
+                if "[vdso]" in l:
+                    lo, hi = [int(x, 16) for x in l.split()[0].split("-")]
+                    if lo == ehdr:
+                        size = hi - lo
+            if not ehdr or not size or base is None:
+                meta.append({"mode": mode, "build": build, "skipped": "no vDSO mapping / load base"})
+                continue
+            with open("/proc/%d/mem" % p.pid, "rb", buffering=0) as mem:
+                mem.seek(ehdr)
+                image = mem.read(size)
+                mem.seek(base + sym[1])
+                ptr = int.from_bytes(mem.read(8), "little")
+        finally:
+            try:
+                p.stdin.close()
+            except OSError:
+                pass
+            try:
+                p.wait(timeout=10)
+            except subprocess.TimeoutExpired:
+                p.kill()
+        v = elfparse.Elf(image)
+        ds, dy = v.section(".dynstr"), v.section(".dynsym")
+        if ds is None or dy is None:
+            meta.append({"mode": mode, "build": build, "skipped": "vDSO without .dynstr/.dynsym section headers"})
+            continue
+        clamp = lambda x: x if x < (1 << 30) else (1 << 30)
+        rec = {"mode": mode, "build": build, "target": target,
+               "sections": [{"name": list(s["name"]), "align": clamp(s["addralign"])} for s in v.sections],
+               "shstrndx": v.e_shstrndx,
+               "dynstr": list(image[ds["offset"]:ds["offset"] + ds["size"]]),
+               "dynsym": [{"name": s[5], "value": clamp(s[1]), "shndx": s[3]} for s in v.symbols(".dynsym")],
+               "resolved": -1 if ptr == 0 else (ptr - ehdr if ehdr <= ptr < ehdr + size else (1 << 30) + 1)}
+        recs.append(rec)
+        meta.append({"mode": mode, "build": build, "vdso_bytes": size, "dynsym_entries": len(rec["dynsym"]), "pointer": hex(ptr),
+                     "vdso_base": hex(ehdr), "independent_lookup": [hex(s[1]) for s in v.symbols(".dynsym") if s[0] == bytes(target)]})
+    info = {"binaries": meta}
+    chk.extra["vdso_lookup"] = info
+    if not recs:
+        return
+    # canaries: a pointer 16 bytes beside the symbol / a pointer to another symbol must be rejected
+    import copy
+    canaries = []
+    if recs[0]["resolved"] >= 0:
+        c = copy.deepcopy(recs[0]); c["resolved"] += 16; canaries.append(c)
+        other = next((s["value"] for s in recs[0]["dynsym"] if s["shndx"] and s["value"] not in (recs[0]["resolved"], 0)), None)
+        if other is not None:
+            c = copy.deepcopy(recs[0]); c["resolved"] = other; canaries.append(c)
+    path = os.path.join(chk.work, "vdso_lookup.ndjson")
+    core.write_ndjson(path, recs + canaries)
+    res = core.run_tlc("VdsoJudge.tla", "VdsoJudge.cfg", workers=1, env={"TRACE": path}, timeout=3000, xmx="3g")
+    core.tlc_must_pass(res, "VdsoJudge")
+    with _LOCK:
+        chk.add_tlc(res)
+    j = res.printed("JUDGED")
+    if len(j) != 1 or j[0]["n"] != len(recs) + len(canaries):
+        raise core.ToolError("VdsoJudge did not report on all %d images" % len(recs))
+    if any(v["ok"] for v in j[0]["v"][len(recs):]):
+        raise core.ToolError("VdsoJudge accepted a corrupted pointer (vacuous clause?)")
+    info["canaries_rejected"] = len(canaries)
+    full = [m for m in meta if "pointer" in m]
+    for v, rec, m in zip(j[0]["v"], recs, full):
+        m.update({"admissible": v["ok"], "walk_conforms": v["conform"], "symbols_aligned_to_section": v["aligned"],
+                  "definitional_values": v["def"], "walk_result": v["walk"]})
+        with _LOCK:
+            chk.evaluations += 1
+            chk.traces += 1 if v["ok"] else 0
+        if not v["ok"]:
+            with _LOCK:
+                chk.violate({"clause": "vdso", "kind": "pointer_is_not_the_symbol"},
+                            "[%s/%s] tiny-std stored %s for clock_gettime (vDSO at %s, offset %s) but the vDSO's dynamic symbol "
+                            "__vdso_clock_gettime has value(s) %s" % (rec["mode"], rec["build"], m["pointer"], m["vdso_base"],
+                                                                      rec["resolved"], v["def"]),
+                            {"mode": rec["mode"], "build": rec["build"], "clause": "vdso", "argv": [[97]], "env": [], "keys": []})
+        if not v["conform"]:
+            core.log("C07: model drift - Vdso.tla's walk on the real vDSO gives %s, the code stored offset %s (not a verdict)" % (
+                v["walk"], rec["resolved"]))
+    info["model_conformance_ok"] = all(v["conform"] for v in j[0]["v"][:len(recs)])
+    info["rounding_can_bite_on_this_vdso"] = not all(v["aligned"] for v in j[0]["v"][:len(recs)])
+
+
 EXTRA_ENVS = [
     [[70, 79, 61, 49], [70, 79, 79, 61, 50]],                       # FO=1 FOO=2  (the lead of DESIGN.md section 6)
     [[65, 61, 255, 254], [66, 61, 120]],                             # non-UTF-8 value
@@ -736,7 +866,7 @@ def run(tier):
             bdir = core.cargo_build(template=tmpl, release=rel)
             bins[(mode, "release" if rel else "debug")] = os.path.join(bdir, "startprobe")
 
-    image_future = bg2.submit(reloc_image, chk, bins)
+    image_future = bg2.submit(lambda: (reloc_image(chk, bins), vdso_lookup(chk, bins)))
     envs_all = gen(chk, "env", 3)
     argvs = [v["argv"] for v in gen(chk, "argv", 0)]
     rng = random.Random(chk.seed)
